@@ -337,10 +337,11 @@ def run(ctx):
                 req = drivers.Req(method=method, headers=hdrs)
                 if iface == "wsgi":
                     res = drivers.run_wsgi(obj, drivers.to_environ(req))
-                    probs = automata.check_wsgi(res.events, prefix=True, edges=edges, once=True)
+                    probs = automata.check_wsgi(res.events, prefix=res.exc is not None, edges=edges, once=True)
                 else:
                     res = drivers.run_asgi(obj, drivers.to_scope(req))
-                    probs = automata.check_asgi_http(res.sent, prefix=True, edges=edges)
+                    # a call that RETURNS has finished its answer (only a call that raises may leave a prefix behind)
+                    probs = automata.check_asgi_http(res.sent, prefix=res.exc is not None, edges=edges)
                 ctx.mon("fault-prefix")
                 ctx.count("file-fault-" + fault)
                 for w, d in probs:
